@@ -1,21 +1,24 @@
 from core import Unit as U
 HASH = ["secp256k1_sha256_write", "secp256k1_sha256_finalize"]
-LEAF = ["secp256k1_scalar_set_b32", "secp256k1_fe_impl_set_b32_limit"]            # proved in C10.leaf_*
 VORACLES = ["secp256k1_ge_set_xquad", "secp256k1_fe_impl_is_square_var", "secp256k1_gej_add_ge_var",
             "secp256k1_pedersen_ecmult_small", "secp256k1_borromean_verify"]
 VLOOPS = ["secp256k1_rangeproof_verify_impl.0:33", "secp256k1_rangeproof_verify_impl.1:33", "secp256k1_rangeproof_verify_impl.2:33",
           "secp256k1_rangeproof_verify_impl.3:129"]
 UNITS = [
+    U("C10.leaf_scalar_set_b32", ["C10", "C07"], "harness/C10/leaf.c", "h_leaf_scalar_set_b32", enforce=["secp256k1_scalar_set_b32"],
+      timeout=300, min_obl=10, note="proved leaf contract: overflow = (be256 >= n), r = be256 mod n, frame = {r, overflow}"),
+    U("C10.leaf_fe_set_b32_limit", ["C10", "C07"], "harness/C10/leaf.c", "h_leaf_fe_set_b32_limit", enforce=["secp256k1_fe_impl_set_b32_limit"],
+      timeout=300, min_obl=10, note="proved leaf contract: ret = (be256 < p), r = be256 when ret, limbs in range always"),
     U("C10.verify_gates", ["C10", "C07"], "harness/C10/verify_impl.c", "h_verify_gates",
-      replace=HASH + LEAF + VORACLES + ["secp256k1_rangeproof_pub_expand"], assumed=VORACLES,
+      replace=HASH + VORACLES + ["secp256k1_rangeproof_pub_expand"], assumed=VORACLES,
       functions=["secp256k1_rangeproof_verify_impl", "secp256k1_rangeproof_getheader_impl", "secp256k1_ge_neg", "secp256k1_gej_neg", "secp256k1_gej_set_ge"],
-      timeout=900, min_obl=100, unwind=34, unwindset=VLOOPS,
+      timeout=2400, min_obl=100, unwind=34, unwindset=VLOOPS,
       closed_by="full unwinding to the code-enforced constants (32 rings, 128 ring members); unwinding assertions prove the bounds",
       note="nonce == NULL; all proof byte strings of length <= 6000; pub_expand by call-site contract; scalar/field byte readers by proved leaf contracts"),
     U("C10.verify_binding", ["C10"], "harness/C10/verify_impl.c", "h_verify_binding",
-      replace=HASH + LEAF + VORACLES + ["secp256k1_rangeproof_pub_expand"], assumed=VORACLES,
+      replace=HASH + VORACLES + ["secp256k1_rangeproof_pub_expand"], assumed=VORACLES,
       functions=["secp256k1_rangeproof_verify_impl", "secp256k1_rangeproof_serialize_point"],
-      timeout=900, min_obl=100, unwind=34, unwindset=VLOOPS,
+      timeout=2400, min_obl=100, unwind=34, unwindset=VLOOPS,
       closed_by="full unwinding to the code-enforced constants (32 rings, 128 ring members)",
       note="hash stream contract: every position of the binding hash, every extra_commit length <= 100000"),
 ]
